@@ -2,6 +2,7 @@
    Only property statements here; each is closed by [exact] (or a two-line proof). *)
 From Coq Require Import NArith ZArith List Bool.
 From Lal Require Import Common.LBytes Common.Res Group.GroupAdmission Group.GroupAdmissionProofs Group.GroupRelayProofs
+     Group.GroupInvariantProofs Group.GroupAttemptProofs
      Rtmp.RtmpMsgPackerBuf Rtmp.RtmpMsgPackerBufProofs.
 Import ListNotations.
 Open Scope N_scope.
@@ -31,6 +32,21 @@ Proof.
   apply start_requires_idle in E. destruct E as [E _]. rewrite Hp in E. discriminate E.
 Qed.
 Print Assumptions c17_single_attempt_step.
+
+(* never two relay-pull attempts of one stream outstanding (in flight or attached) at the same
+   time, after any history of events over any number of streams *)
+Theorem c17_single_attempt : forall cf h s i j,
+  let st := fst (run fixed_tree cf init_state h) in
+  outstanding (vatt st s i) = true -> outstanding (vatt st s j) = true -> i = j.
+Proof. exact single_attempt. Qed.
+Print Assumptions c17_single_attempt.
+
+(* and while an attempt is outstanding pullIfNeeded starts nothing, whoever calls it *)
+Theorem c17_outstanding_blocks_start : forall cf h s i g now,
+  let st := fst (run fixed_tree cf init_state h) in
+  outstanding (vatt st s i) = true -> get_group st s = Some g -> snd (fst (pull_if_needed g now)) = false.
+Proof. exact outstanding_blocks_start. Qed.
+Print Assumptions c17_outstanding_blocks_start.
 
 (* stop rule 1: a tick at which no consumer is present and the auto-stop window has elapsed does not
    start an attempt and disposes the attached pull session, whose end is reported in the same step *)
